@@ -374,6 +374,18 @@ func c13(run *core.Run, replay string) {
 			}
 		}
 	}
+	// executable-looking blocks with garbage headers: each instance draws different header fields, so many seeds per shape
+	nbogus := run.Pick(120, 1500)
+	for i := 0; i < nbogus; i++ {
+		for _, sh := range []string{"machobogus", "elfbogus", "pebogus", "elfx86", "pe"} {
+			for _, tr := range []string{"EXE", "MM"} {
+				if tr == "MM" && i%4 != 0 {
+					continue
+				}
+				add(trCase{T: tr, Pre: []string{"", "magic"}[i%2], Entropy: "ANS0", Shape: sh, Size: []int{64, 100, 512, 4096, 20000, 70000}[i%6], Seed: run.Seed*977 + int64(i)})
+			}
+		}
+	}
 	// the > 4 MiB regimes of BWT/BWTS (helper goroutines), and multi-MiB LZ/ROLZ
 	bigN := 4<<20 + 16
 	for _, t := range []string{"BWT", "BWTS", "LZ", "LZX", "ROLZ", "ROLZX", "TEXT", "RLT"} {
